@@ -52,6 +52,7 @@ type Entry struct {
 	InMulti bool     // (raw log) the request arrived inside an open MULTI
 	Tag     string   // CLIENT SETNAME of the connection
 	Node    int      // cluster node that executed it
+	Stamp   int64    // value of Server.StampFn at execution (order across several fakes of one harness)
 }
 
 type Action int
@@ -63,12 +64,14 @@ const (
 
 // Server is a standalone or cluster-node personality fake.
 type Server struct {
-	mu      sync.Mutex
-	ln      net.Listener
-	addr    string
-	DBs     map[int]DB
-	Log     []Entry
-	Raw     []Entry // every request in arrival order (including MULTI/EXEC/SELECT)
+	mu   sync.Mutex
+	ln   net.Listener
+	addr string
+	DBs  map[int]DB
+	Log  []Entry
+	Raw  []Entry // every request in arrival order (including MULTI/EXEC/SELECT)
+	// StampFn, if set, is called (under the server lock) for every executed command; the value is kept in Entry.Stamp
+	StampFn func() int64
 	KeepRaw bool
 	Recv    int // requests received (every request, including MULTI/EXEC/PING)
 	blk     int
@@ -330,6 +333,9 @@ func (s *Server) logEntry(c *conn, name string, args [][]byte, blk int, rep inte
 	e := Entry{Seq: len(s.Log) + 1, Conn: c.id, DB: c.db, Name: name, Args: args, Blk: blk, Tag: c.tag}
 	if er, ok := rep.(ErrRep); ok {
 		e.Err = string(er)
+	}
+	if s.StampFn != nil {
+		e.Stamp = s.StampFn()
 	}
 	if s.Cluster != nil {
 		e.Seq = int(s.Cluster.ESeq.Add(1)) // cluster-wide execution order
